@@ -530,7 +530,30 @@ func TestC11Counter(t *testing.T) {
 		}
 		check()
 		nops := rapid.IntRange(0, 3*n+4).Draw(t, "nops")
+		// at a drawn point the Validators OBJECT the counter was made from may be refilled in place with another
+		// set (RLP-decoding into an existing object does that, e.g. re-reading a state struct): the counter
+		// belongs to the set it was created from
+		refillAt := -1
+		if rapid.IntRange(0, 3).Draw(t, "refillObject") == 0 {
+			refillAt = rapid.IntRange(0, nops).Draw(t, "refillAt")
+		}
+		refilled := false
+		refill := func() {
+			s2 := genSet(t, 8)
+			enc, err := rlp.EncodeToBytes(s2.build(true))
+			if err != nil {
+				t.Fatalf("rlp encode: %v", err)
+			}
+			if err := rlp.DecodeBytes(enc, v); err != nil {
+				t.Fatalf("decoding into the existing object: %v", err)
+			}
+			hist = append(hist, fmt.Sprintf("object refilled with %+v", s2))
+			refilled = true
+		}
 		for o := 0; o < nops; o++ {
+			if o == refillAt {
+				refill()
+			}
 			var i int
 			if o > 0 && rapid.IntRange(0, 3).Draw(t, "repeat") == 0 {
 				// repeat an already counted validator if any
@@ -572,6 +595,20 @@ func TestC11Counter(t *testing.T) {
 				flips++
 			}
 		}
+		if refillAt == nops {
+			refill()
+			check()
+		}
+		if refilled {
+			// (the object now holds another set; the clauses about a second counter need the original one)
+			v = s.build(true)
+			im2 := indexMap(t, s, v)
+			for i := range im2 {
+				if im2[i] != im[i] {
+					t.Fatalf("set %+v: two builds of the same set number the validators differently", s)
+				}
+			}
+		}
 		// a second counter of the same set is independent of the first
 		c2 := v.NewCounter()
 		if c2.Sum() != 0 || c2.HasQuorum() {
@@ -598,6 +635,9 @@ func TestC11Counter(t *testing.T) {
 		}
 		if n > 32 {
 			classes = append(classes, "more_than_32_members")
+		}
+		if refilled {
+			classes = append(classes, "validators_object_refilled_while_counting")
 		}
 		stCounter.Case(stats.Hash(s.IDs, s.W, hist), boundary, classes...)
 		stCounter.Class("count_calls", int64(nops))
